@@ -144,7 +144,7 @@ class C04(Prop):
                 per = {s: [o for o in ops if o.get("s") == s] for s in range(nsess)}
                 order = [o.get("s") for o in ops]
                 ops = [per[s].pop(0) for s in order]
-        return {"flavour": flavour, "agent": agent, "sessions": sessions, "ops": ops, "scripts": scripts, "latency_ns": lat, "ready_order_seed": rng.randrange(2**31)}
+        return {"flavour": flavour, "agent": agent, "sessions": sessions, "ops": ops, "scripts": scripts, "latency_ns": lat, "ready_order_seed": rng.randrange(2**31), "rx_tail": rng.choice(["poison", "keep"])}
 
     def check(self, run):
         out = []
